@@ -597,8 +597,19 @@ func sequence(run *hx.Run, class string, mode string, secret []byte, p *fakePlay
 	}
 }
 
+func mixSeed(z uint64) uint64 {
+	z += 0x9E3779B97F4A7C15
+	z = (z ^ (z >> 30)) * 0xBF58476D1CE4E5B9
+	z = (z ^ (z >> 27)) * 0x94D049BB133111EB
+	return z ^ (z >> 31)
+}
+
 func main() {
 	run := hx.Start()
+	// hx.NewRng(seed) starts splitmix64 at seed*gamma, so consecutive seeds walk the SAME stream one step
+	// apart; hash the seed first so that different seeds give unrelated streams (still fully determined
+	// by VERIF_SEED).
+	run.Rng = hx.NewRng(mixSeed(run.Seed))
 	r := run.Rng
 
 	// ---- constants read back from the running code (the model takes them from Gen/ or states them)
